@@ -102,10 +102,17 @@ def expected_graph(chain):
 
 
 def check_chain(chain):
+    import copy
+    before = copy.deepcopy(chain)
     try:
-        src = DecayChainViewer(chain).to_string()
+        v = DecayChainViewer(chain)
+        src = v.to_string()
+        if v.to_string() != src:
+            return [("to_string-not-repeatable", f"two calls of to_string() differ for chain {chain}")]
     except Exception as e:  # noqa: BLE001
         return [(f"viewer-exception:{type(e).__name__}", f"{e!r} for chain {chain}")]
+    if chain != before:
+        return [("viewer-mutates-chain", f"building the graph changed the chain dictionary: {before} -> {chain}")]
     j, err = dot_json(src)
     if j is None:
         return [("rejected-by-graphviz", f"dot rejects the graph of chain {chain}: {err}")]
